@@ -652,6 +652,56 @@ def check_fuel_charged_once(fn):
     return 'unsat', dict(kind='some path from the instruction fetch to the dispatch does not charge exactly once (%d track call(s) found)' % ntrack, calls=[]), dt, stats
 
 
+def check_out_of_fuel_origin(mir):
+    """Running out of fuel is decided by FuelTracker::track alone: in every function outside vm::fuel that creates an
+    OutOfFuel error, the creating block is reached only through the failure edge of a `track` call (K = 1)."""
+    out = []
+    for m in re.finditer(r'^fn ([^\n(]+)\(', mir, re.M):
+        name = m.group(1)
+        end = mir.index('\n}\n', m.start())
+        text = mir[m.start():end + 2]
+        if 'ErrorKind::OutOfFuel' not in text or re.match(r'(vm::)?fuel::', name):
+            continue
+        fn = parse_function(text)
+        adj, preds = cfg(fn)
+        der, defcount = derive_map(fn)
+        tracks = set()
+        for b in fn['blocks'].values():
+            dst, callee = call_of(b['term'])
+            if dst and re.search(r'FuelTracker::track\(', callee):
+                tracks.add(dst)
+        s_ = z3.Solver()
+        D = {b: z3.Int('K_%s' % b) for b in fn['blocks'] if not fn['blocks'][b]['cleanup']}
+        s_.add(D['bb0'] == 0)
+        creators = 0
+        for bid, blk in fn['blocks'].items():
+            if blk['cleanup']:
+                continue
+            if any('ErrorKind::OutOfFuel' in st for st in blk['stmts']):
+                s_.add(D[bid] == 1)
+                creators += 1
+            if any(re.match(r'_0 = ', st) for st in blk['stmts']):
+                continue
+            for label, tgt in adj[bid]:
+                if fn['blocks'][tgt]['term'] == 'return;':
+                    continue
+                eff = None
+                if isinstance(label, tuple):
+                    mm = re.match(r'switchInt\((?:copy|move) (_\d+)\)', blk['term'])
+                    loc = mm.group(1)
+                    if loc in der and der[loc][1] == 'disc' and der[loc][0] in tracks and label[1] == '1':
+                        eff = 1
+                s_.add(D[tgt] == (eff if eff is not None else D[bid]))
+        r = s_.check()
+        res = dict(function=name[-60:], resource='out_of_fuel_origin', creators=creators, spec={})
+        if r == z3.sat:
+            res['verdict'] = 'sat'
+        else:
+            res.update(verdict='unsat', conflict='%s creates an OutOfFuel error on a path that did not go through a failing FuelTracker::track' % name[-50:])
+        out.append(res)
+    return out
+
+
 def analyse_eval_impl(mir):
     text = function_text(mir, EVAL_IMPL)
     if text is None:
@@ -815,6 +865,8 @@ def run_eval_impl(prop, tier, seed):
     try:
         mir = dump_mir(REPO, os.path.join(BUILD, 'mir'))
         results = [r for r in analyse_eval_impl(mir) if r.get('resource') == which or r['verdict'] == 'missing']
+        if which == 'fuel_charged_once':
+            results += check_out_of_fuel_origin(mir)
     except MirError as e:
         ev['problems'].append('engine M: %s' % e)
         return ev
@@ -832,10 +884,12 @@ def run_eval_impl(prop, tier, seed):
         fuel_src = open(os.path.join(REPO, 'minijinja', 'src', 'vm', 'fuel.rs'), encoding='utf-8').read()
         m0 = re.search(r'fn fuel_for_instruction.*?\{(.*?)_ => 1', fuel_src, re.S)
         free = set(re.findall(r'Instruction::(\w+)', m0.group(1))) if m0 else set()
-        inp = '\n'.join(json.dumps(dict(id=i, src=s['src'])) for i, s in enumerate(scen)) + '\n'
+        inp = '\n'.join(json.dumps(dict(id=i, src=s.get('src', ''))) for i, s in enumerate(scen)) + '\n'
         p = subprocess.run([os.path.join(BUILD, 'native', 'debug', 'dump')], input=inp, stdout=subprocess.PIPE, stderr=subprocess.PIPE, text=True, timeout=120)
         dumps = {d['id']: d for d in (json.loads(l) for l in p.stdout.split('\n') if l.strip())}
         for i, s in enumerate(scen):
+            if s.get('native_verdict'):
+                continue          # this scenario decides by itself (no instruction count needed)
             ins = dumps.get(i, {}).get('instrs')
             if ins is None or not m0:
                 ev['problems'].append('engine M: cannot compute the expected fuel of %r' % s['src'])
